@@ -21,6 +21,7 @@ package token
 //@   modifies map interning
 //@   ensures  @C16,C08 internOK()
 //@   ensures  @C16,C08 result != nil && result.tokenType == old(t.tokenType) && result.literal == old(t.literal)
+//@   safety C16 C08
 //@   property C16
 
 //@ func Intern
